@@ -11,18 +11,16 @@ theorem getActor_setActor_other (e : Env) (a : Actor) (aid : Nat) (h : aid ≠ a
   induction e.actors with
   | nil => rfl
   | cons x xs ih =>
-    simp only [List.map_cons, List.find?_cons]
-    by_cases hx : x.aid = a.aid
-    · have hxa : (x.aid == aid) = false := by
-        rw [hx]; exact beq_false_of_ne (Ne.symm h)
-      have haa : (a.aid == aid) = false := beq_false_of_ne (Ne.symm h)
-      have hxe : (x.aid == a.aid) = true := by simp [hx]
-      simp only [hxe, if_true, haa, hxa]
-      exact ih
-    · have hxe : (x.aid == a.aid) = false := beq_false_of_ne hx
-      simp only [hxe, Bool.false_eq_true, if_false]
+    unfold setFirstActor
+    have haa : (a.aid == aid) = false := beq_false_of_ne (Ne.symm h)
+    cases hxe : x.aid == a.aid
+    · simp only [Bool.false_eq_true, if_false, List.find?_cons]
       cases hxa : x.aid == aid
       · exact ih
       · rfl
+    · have hxa : (x.aid == aid) = false := by
+        have : x.aid = a.aid := by simpa using hxe
+        rw [this]; exact haa
+      simp only [if_true, List.find?_cons, haa, hxa]
 
 end Factory
